@@ -210,11 +210,18 @@ impl<W: 'static, R: 'static, T: 'static> XSequence<W, R, T> {
             return Some(Self::Empty);
         }
         Some(match self_ {
-            Self::Slice(origin, old_start, ..) => Self::Slice(
-                origin.clone(),
-                old_start + start,
-                end.map(|end| old_start + end),
-            ),
+            // a slice of a slice addresses the original source, unless the absolute bounds would
+            // overflow (possible for slices of infinite sequences only)
+            Self::Slice(origin, old_start, ..)
+                if old_start.checked_add(start).is_some()
+                    && end.map_or(true, |end| old_start.checked_add(end).is_some()) =>
+            {
+                Self::Slice(
+                    origin.clone(),
+                    old_start + start,
+                    end.map(|end| old_start + end),
+                )
+            }
             _ => Self::Slice(base.clone(), start, end),
         })
     }
